@@ -270,7 +270,8 @@ def coq_case(case, ob, dv):
 def plan_runs(rng, pkg):
     runs = []
     for f in pkg["funcs"]:
-        if G.oracle_valid(pkg, f):
+        # (undecided declarations are run too when mage lists them: whatever is listed must be runnable)
+        if G.oracle_valid(pkg, f) or G.oracle_would_be_valid(pkg, f):
             ws, expect = G.words_for(rng, f)
             runs.append((G.oracle_key(f), ws, expect, G.def_id(f)))
     rng.shuffle(runs)
@@ -298,7 +299,7 @@ def run(ctx):
         c = ctx.replay["case"]
         cases.append({"stream": c["stream"], "pkg": c["pkg"], "ident": c.get("ident"), "compile": True})
     else:
-        nmain = 32 if ctx.quick else 900
+        nmain = 28 if ctx.quick else 900
         k = 1 if ctx.quick else 12
         for _ in range(nmain):
             cases.append({"stream": "main", "pkg": G.gen_package(rng)})
@@ -311,9 +312,13 @@ def run(ctx):
         for j in range(6 * k):
             cases.append({"stream": "cli-words", "compile": True,
                           "pkg": G.gen_cli_words(rng, force=["Help", "Version", "Init", "L", "H", "Main"][j % 6])})
+        for v in G.MG_VARIANTS * k:
+            cases.append({"stream": "mg-import:" + v, "pkg": G.gen_mg_imports(rng, v)})
+        for v in G.MAGIC_VARIANTS * k:
+            cases.append({"stream": "magic-lookalike:" + v, "pkg": G.gen_magic_lookalike(rng, v)})
         for c in cases[:6]:
             c["compile"] = True
-        for cls, n in (("import-name-clash", 4), ("generic-namespace-type", 1), ("lookalike", 6)):
+        for cls, n in (("import-name-clash", 3), ("generic-namespace-type", 1), ("lookalike", 5)):
             for _ in range(n * k):
                 cases.append({"stream": cls, "pkg": G.gen_clash(rng, cls)})
         # EVERY predeclared identifier, on every run (a random declaration kind each), and some ordinary names
